@@ -137,9 +137,13 @@ def helper_inline(crate, named=()):
     local byte predicate `fn(u8) -> bool`."""
     named = set(WRAPPERS) | set(named)
     light = light_fns(crate)
+    # a named free function of the parse module tree keeps its role when it moves to a sibling module
+    moved = {n.rsplit("::", 1)[1] for n in named if n.startswith("parse::") and "<" not in n}
 
     def inline(a, b):
-        return b.path in named or b.path in light or (b.crate == crate.name and scalar_fn(b))
+        return b.path in named or b.path in light or (b.crate == crate.name and scalar_fn(b)) or \
+            (b.crate == crate.name and b.kind == "fn" and b.path.startswith("parse::") and "<" not in b.path
+             and b.path.rsplit("::", 1)[1] in moved)
     return inline
 
 
